@@ -34,6 +34,7 @@ def monotone(t, lo, hi):
     if k == "sub": return monotone(t[1], lo, hi) and ev(t[1], lo) >= t[2]
     if k in ("add", "mulc", "shl"): return monotone(t[1], lo, hi) and ev(t, hi) >= ev(t, lo) and _nowrap(t, lo, hi)
     if k in ("shr", "udiv"): return monotone(t[1], lo, hi)
+    if k == "or": return monotone(t[1], lo, hi) and (t[2] & (t[2] + 1)) == 0        # x | (2^k - 1) = floor to a multiple of 2^k, plus the mask
     if k == "and":
         m = t[2]
         low = (m & -m) if m else 0
@@ -327,6 +328,24 @@ class E1:
                     continue
                 if callee and callee.startswith("llvm.bswap"):
                     env[i.id] = ("bswap", V(0), bits); continue
+                if callee and callee.startswith("llvm.ctlz"):
+                    a = V(0)
+                    if is_c(a): env[i.id] = C(bits - a[1].bit_length(), bits); continue
+                    if not monotone(a, path.lo, path.hi): raise Unsupported("ctlz of a non-monotone term")
+                    # constant on every sub-interval where the argument keeps its bit length: split there
+                    pieces = []; cur = path.lo
+                    while cur <= path.hi:
+                        bl = ev(a, cur).bit_length(); lo_, hi_ = cur, path.hi
+                        while lo_ < hi_:
+                            mid = (lo_ + hi_ + 1) // 2
+                            if ev(a, mid).bit_length() == bl: lo_ = mid
+                            else: hi_ = mid - 1
+                        pieces.append((cur, lo_, bl)); cur = lo_ + 1
+                    if len(pieces) == 1: env[i.id] = C(bits - pieces[0][2], bits); continue
+                    for (pa, pb, bl) in pieces:
+                        p2 = path.fork(pa, pb); env2 = self.renorm(env, pa, pb); env2[i.id] = C(bits - bl, bits)
+                        yield from self.rest(fn, b, i.idx + 1, env2, args, p2)
+                    return
                 g = self.mod.functions.get(callee) if callee else None
                 if g is None or g.decl: raise Unsupported("call to %s" % callee)
                 cargs = [V(n) for n in range(i["nargs"])]
